@@ -46,313 +46,6 @@ func postingLineKey(info *types.Info, e ast.Expr) (string, int64, bool) {
 	}
 }
 
-func ruleFormatterEdits(c *Ctx) {
-	pk := c.P.ByRel["internal/formatter"]
-	info := pk.TypesInfo
-	type editLit struct {
-		fd        *ast.FuncDecl
-		lit       *ast.CompositeLit
-		startLine string
-		endLine   string
-		startChar string
-		endChar   string
-		newText   ast.Expr
-	}
-	var lits []editLit
-	field := func(cl *ast.CompositeLit, name string) ast.Expr {
-		for _, el := range cl.Elts {
-			if kv, ok := el.(*ast.KeyValueExpr); ok && identOf(kv.Key).Name == name {
-				return kv.Value
-			}
-		}
-		return nil
-	}
-	for _, f := range pk.Syntax {
-		for _, d := range f.Decls {
-			fd, ok := d.(*ast.FuncDecl)
-			if !ok || fd.Body == nil {
-				continue
-			}
-			ast.Inspect(fd.Body, func(x ast.Node) bool {
-				cl, ok := x.(*ast.CompositeLit)
-				if !ok || !typeHasSuffix(info.TypeOf(cl), "protocol.TextEdit") {
-					return true
-				}
-				e := editLit{fd: fd, lit: cl, newText: field(cl, "NewText")}
-				resolve := func(x ast.Expr) string {
-					// strip a conversion and look through a single-assignment local
-					if call, ok := ast.Unparen(x).(*ast.CallExpr); ok && len(call.Args) == 1 {
-						if tv, ok := info.Types[call.Fun]; ok && tv.IsType() {
-							x = call.Args[0]
-						}
-					}
-					r := resolveSingleDef(c.P, info, x)
-					return fullStr(c.P.Fset, r)
-				}
-				if r, ok := field(cl, "Range").(*ast.CompositeLit); ok {
-					if s, ok := field(r, "Start").(*ast.CompositeLit); ok {
-						e.startLine, e.startChar = fullStr(c.P.Fset, field(s, "Line")), resolve(field(s, "Character"))
-					}
-					if en, ok := field(r, "End").(*ast.CompositeLit); ok {
-						e.endLine, e.endChar = fullStr(c.P.Fset, field(en, "Line")), resolve(field(en, "Character"))
-					}
-				}
-				lits = append(lits, e)
-				return true
-			})
-		}
-	}
-	c.census("T13", "TextEdit constructors in the formatter", len(lits), 2)
-	var rewriteLit, trimLit *editLit
-	for i := range lits {
-		e := &lits[i]
-		fname := c.P.declName(e.fd)
-		single := e.startLine != "" && e.startLine == e.endLine
-		c.check(single, "T13", fname, "edit range stays on one line", e.lit.Pos(), "Start.Line and End.Line are the same expression ("+e.startLine+")", "a formatter edit spans lines (Start.Line "+e.startLine+", End.Line "+e.endLine+"): edits of neighbouring lines can overlap")
-		endsAtEOL := strings.Contains(e.endChar, "LineUTF16Len(")
-		c.check(endsAtEOL, "T13", fname, "edit range ends at the line's UTF-16 length", e.lit.Pos(), "End.Character = LineUTF16Len(line)", "the edit does not end at the UTF-16 length of its line ("+e.endChar+")")
-		isEmpty := false
-		if tv, ok := info.Types[e.newText]; ok && tv.Value != nil && tv.Value.Kind() == constant.String && constant.StringVal(tv.Value) == "" {
-			isEmpty = true
-		}
-		if isEmpty {
-			trimLit = e
-		} else {
-			rewriteLit = e
-		}
-	}
-	c.check(len(lits) == 2 && rewriteLit != nil && trimLit != nil, "T13", "formatter", "exactly two edit shapes: rewrite a posting line, delete trailing blanks", token.NoPos,
-		"one constructor with computed text (posting lines) and one with constant empty text (trailing blanks)",
-		fmt.Sprintf("the formatter builds %d kinds of edits (expected: posting-line rewrite + trailing-blank deletion): text outside posting lines can be changed by more than the loss of trailing blanks", len(lits)))
-	if rewriteLit == nil || trimLit == nil {
-		return
-	}
-	// rewrite edit: starts at column 0
-	c.check(strings.HasPrefix(rewriteLit.startChar, "0") || rewriteLit.startChar == "0", "T13", c.P.declName(rewriteLit.fd), "posting rewrite covers the whole line", rewriteLit.lit.Pos(), "Start.Character = 0", "posting rewrite does not start at column 0")
-	// trim edit: starts at the UTF-16 length of the line without trailing blanks
-	c.check(strings.Contains(trimLit.startChar, "UTF16Len") || strings.Contains(strings.ToLower(trimLit.startChar), "utf16"), "T13", c.P.declName(trimLit.fd), "trim starts at the UTF-16 length of the trimmed text", trimLit.lit.Pos(), "Start.Character = UTF16Len(trimmed)", "the trim edit's start is not the UTF-16 length of the text to keep ("+trimLit.startChar+")")
-	// the trimmed text is obtained by removing trailing blanks only
-	trimOK := false
-	ast.Inspect(trimLit.fd.Body, func(x ast.Node) bool {
-		if call, ok := x.(*ast.CallExpr); ok && qualName(calleeOf(info, call)) == "strings.TrimRight" && len(call.Args) == 2 {
-			if s, ok := stringConst(info, call.Args[1]); ok && strings.Trim(s, " \t") == "" {
-				trimOK = true
-			}
-		}
-		return true
-	})
-	c.check(trimOK, "T13", c.P.declName(trimLit.fd), "only blanks are trimmed", trimLit.fd.Pos(), "strings.TrimRight(line, \" \\t\")", "the text kept by the trim edit is not 'the line without trailing spaces/tabs'")
-	// the function with the loop over postings that emits the rewrite (directly or through a helper that
-	// builds the edit)
-	loopFd := rewriteLit.fd
-	emitPos := rewriteLit.lit.Pos()
-	hasPostingLoop := func(fd *ast.FuncDecl) bool {
-		found := false
-		ast.Inspect(fd.Body, func(x ast.Node) bool {
-			switch s := x.(type) {
-			case *ast.RangeStmt:
-				if se, ok := ast.Unparen(s.X).(*ast.SelectorExpr); ok && se.Sel.Name == "Postings" {
-					found = true
-				}
-			}
-			return true
-		})
-		return found
-	}
-	if !hasPostingLoop(loopFd) {
-		helperObj := info.Defs[rewriteLit.fd.Name]
-		for _, f := range pk.Syntax {
-			for _, d := range f.Decls {
-				fd, ok := d.(*ast.FuncDecl)
-				if !ok || fd.Body == nil || !hasPostingLoop(fd) {
-					continue
-				}
-				ast.Inspect(fd.Body, func(x ast.Node) bool {
-					if call, ok := x.(*ast.CallExpr); ok && calleeOf(info, call) == helperObj {
-						loopFd, emitPos = fd, call.Pos()
-					}
-					return true
-				})
-			}
-		}
-	}
-	// non-overlap: the trim loop skips exactly the lines keyed by the expression that keys posting rewrites
-	var rewriteKey string
-	var rewriteK int64
-	ast.Inspect(loopFd.Body, func(x ast.Node) bool {
-		if as, ok := x.(*ast.AssignStmt); ok && len(as.Lhs) == 1 && len(as.Rhs) == 1 {
-			if p, k, ok := postingLineKey(info, as.Rhs[0]); ok {
-				rewriteKey, rewriteK = p, k
-			}
-		}
-		return true
-	})
-	var markKey string
-	var markK int64
-	nMarks := 0
-	for _, f := range pk.Syntax {
-		for _, d := range f.Decls {
-			fd, ok := d.(*ast.FuncDecl)
-			if !ok || fd.Body == nil {
-				continue
-			}
-			ast.Inspect(fd.Body, func(x ast.Node) bool {
-				as, ok := x.(*ast.AssignStmt)
-				if !ok || len(as.Lhs) != 1 {
-					return true
-				}
-				ix, ok := ast.Unparen(as.Lhs[0]).(*ast.IndexExpr)
-				if !ok {
-					return true
-				}
-				if t := info.TypeOf(ix.X); t != nil {
-					if m, ok := t.Underlying().(*types.Map); ok && types.TypeString(m.Key(), nil) == "int" && types.TypeString(m.Elem(), nil) == "bool" {
-						if p, k, ok := postingLineKey(info, ix.Index); ok {
-							markKey, markK = p, k
-							nMarks++
-						}
-					}
-				}
-				return true
-			})
-		}
-	}
-	c.check(rewriteKey != "" && rewriteKey == markKey && rewriteK == markK, "T13", "formatter", "trim edits skip exactly the rewritten posting lines", rewriteLit.lit.Pos(),
-		fmt.Sprintf("posting rewrites and the set of lines skipped by trimming are both keyed by posting.%s - %d", rewriteKey, rewriteK),
-		fmt.Sprintf("posting rewrites are keyed by posting.%s - %d but the lines excluded from trimming by posting.%s - %d: a posting line can receive two overlapping edits", rewriteKey, rewriteK, markKey, markK))
-	skip := false
-	ast.Inspect(trimLit.fd.Body, func(x ast.Node) bool {
-		if ifs, ok := x.(*ast.IfStmt); ok && ifs.Pos() < trimLit.lit.Pos() {
-			if ix, ok := ast.Unparen(ifs.Cond).(*ast.IndexExpr); ok {
-				if t := info.TypeOf(ix.X); t != nil {
-					if _, ok := t.Underlying().(*types.Map); ok && len(ifs.Body.List) == 1 {
-						if br, ok := ifs.Body.List[0].(*ast.BranchStmt); ok && br.Tok == token.CONTINUE {
-							skip = true
-						}
-					}
-				}
-			}
-		}
-		return true
-	})
-	c.check(skip, "T13", c.P.declName(trimLit.fd), "trim loop consults the set of posting lines", trimLit.fd.Pos(), "`if postingLines[line] { continue }` precedes the trim edit", "the trim loop does not skip posting lines")
-
-	// ---- C04-ERRS
-	errSkip := false
-	ast.Inspect(loopFd.Body, func(x ast.Node) bool {
-		if ifs, ok := x.(*ast.IfStmt); ok && ifs.Pos() < emitPos {
-			if ix, ok := ast.Unparen(ifs.Cond).(*ast.IndexExpr); ok {
-				if se, ok := ast.Unparen(ix.X).(*ast.SelectorExpr); ok && strings.Contains(se.Sel.Name, "Error") && len(ifs.Body.List) == 1 {
-					if br, ok := ifs.Body.List[0].(*ast.BranchStmt); ok && br.Tok == token.CONTINUE {
-						errSkip = true
-					}
-				}
-			}
-		}
-		return true
-	})
-	c.check(errSkip, "C04-ERRS", c.P.declName(loopFd), "posting lines with a syntax error are not rewritten", emitPos,
-		"`if opts.ErrorLines[line] { continue }` precedes the rewrite edit",
-		"posting lines are rebuilt from the syntax tree even where the parser reported an error: text the parser did not understand (a dangling '@', a lone '$', trailing words) is deleted")
-	// the server hands the parser's errors to the formatter
-	var fmtH *ssa.Function
-	if fd := c.P.handlerByParam("protocol.DocumentFormattingParams"); fd != nil {
-		fmtH = c.P.ssaOf(fd)
-	}
-	if fmtH == nil {
-		c.undecided("C04-ERRS", "server.Server.Format", "anchor", token.NoPos, "formatting handler not found")
-	} else {
-		okFlow := false
-		for _, b := range fmtH.Blocks {
-			for _, ins := range b.Instrs {
-				st, ok := ins.(*ssa.Store)
-				if !ok || !fieldAddrNamed(st.Addr, "ErrorLines") {
-					continue
-				}
-				sl := backSlice(st.Val)
-				// the stored map is filled from the second result of parser.Parse
-				for _, b2 := range fmtH.Blocks {
-					for _, i2 := range b2.Instrs {
-						if mu, ok := i2.(*ssa.MapUpdate); ok && sl[mu.Map] {
-							ks := backSlice(mu.Key)
-							for v := range ks {
-								if ex, ok := v.(*ssa.Extract); ok && ex.Index == 1 {
-									if call, ok := ex.Tuple.(*ssa.Call); ok && call.Common().StaticCallee() != nil && calleeNameIs(call.Common().StaticCallee(), "parser.Parse") {
-										okFlow = true
-									}
-								}
-							}
-						}
-					}
-				}
-			}
-		}
-		c.check(okFlow, "C04-ERRS", funcName(fmtH), "parse errors reach the formatter", fmtH.Pos(),
-			"Options.ErrorLines is filled from the errors returned by parser.Parse for the formatted text",
-			"the formatting handler discards the parser's errors: the formatter cannot know which lines it must not rewrite")
-	}
-
-	// ---- C05-INDENT (SSA): alignment column and emitted indent both derive from Options.IndentSize
-	var docFn *ssa.Function
-	for _, f := range c.P.ModuleFuncs() {
-		if f.Pkg == c.P.SSAPkg("internal/formatter") && f.Signature.Params().Len() == 4 && typeHasSuffix(f.Signature.Params().At(3).Type(), "formatter.Options") {
-			docFn = f
-		}
-	}
-	if docFn == nil {
-		c.undecided("C05-INDENT", "formatter", "document formatter", token.NoPos, "function (journal, content, formats, Options) not found")
-		return
-	}
-	nCol := 0
-	for _, b := range docFn.Blocks {
-		for _, ins := range b.Instrs {
-			call, ok := ins.(*ssa.Call)
-			if !ok {
-				continue
-			}
-			cal := call.Common().StaticCallee()
-			if cal == nil || !inModule(cal) {
-				continue
-			}
-			// the per-transaction formatter: takes an int column and Options
-			var colArg ssa.Value
-			hasOpts := false
-			for i, p := range cal.Params {
-				if types.TypeString(p.Type(), nil) == "int" {
-					colArg = call.Common().Args[i]
-				}
-				if typeHasSuffix(p.Type(), "formatter.Options") {
-					hasOpts = true
-				}
-			}
-			if colArg == nil || !hasOpts {
-				continue
-			}
-			nCol++
-			sl := backSlice(colArg)
-			dep := sliceHasFieldRead(sl, "IndentSize")
-			minc := sliceHasFieldRead(sl, "MinAlignmentColumn")
-			c.check(dep, "C05-INDENT", funcName(docFn), "alignment column accounts for the configured indent", call.Pos(),
-				"the common amount column is computed from Options.IndentSize", "the common amount column does not depend on Options.IndentSize while posting lines are emitted with that indent: with a larger indent the longest account overruns the column and amounts are no longer aligned")
-			c.check(minc, "C05-INDENT", funcName(docFn), "alignment column honours the minimum column", call.Pos(), "the column depends on Options.MinAlignmentColumn", "Options.MinAlignmentColumn has no influence on the alignment column")
-		}
-	}
-	c.census("C05-INDENT", "calls of the per-transaction formatter", nCol, 1)
-	// indent string = Repeat(" ", opts.IndentSize)
-	nRep := 0
-	for _, f := range c.P.ModuleFuncs() {
-		if f.Pkg != c.P.SSAPkg("internal/formatter") {
-			continue
-		}
-		for _, call := range findCalls(f, func(cal *ssa.Function) bool { return funcName(cal) == "strings.Repeat" }) {
-			if sliceHasFieldRead(backSlice(call.Common().Args[1]), "IndentSize") {
-				nRep++
-			}
-		}
-	}
-	c.check(nRep >= 1, "C05-INDENT", "formatter", "emitted indent is Options.IndentSize blanks", token.NoPos, "strings.Repeat(\" \", opts.IndentSize) builds the indent", "no indent string is built from Options.IndentSize")
-}
-
 // ruleT14: every source-derived field the parser fills in a posting is read by the posting formatter.
 func ruleT14(c *Ctx) {
 	ppk := c.P.ByRel["internal/parser"]
